@@ -31,11 +31,9 @@ pub fn o_hash(input: &[u8], p: &P) -> Out {
 		}
 		let mut rd = EnvReader::new(input, sched_of(p));
 		let g = read_slp_from(&mut rd, p.skip, p.hash);
-		if let (Sched::FailAt(_, std::io::ErrorKind::Interrupted), Err(Fail::Err(m))) = (sched_of(p), &g) {
-			if m.contains("env: injected fault") {
-				// giving up on an interrupted read call is an error, not a wrong hash
-				return Ok(2);
-			}
+		if let (Sched::FailAt(_, std::io::ErrorKind::Interrupted), Err(Fail::Err(_))) = (sched_of(p), &g) {
+			// giving up on an interrupted read call is an error (whatever its text), not a wrong hash
+			return Ok(2);
 		}
 		let g = g.map_err(|f| e(&format!("read-failed:{}", f.key()), format!("reading a well-formed replay failed under this read schedule: {}", f.describe())))?;
 		if !p.hash {
@@ -48,8 +46,10 @@ pub fn o_hash(input: &[u8], p: &P) -> Out {
 		if g.hash.as_deref() != Some(want.as_str()) {
 			return Err(e("hash-value", format!("reported {:?}, but XXH3-64 of the {} bytes through the closing brace is {}", g.hash, rg.consumed, want)));
 		}
-		if rd.handed != rg.consumed {
-			return Err(e("consumed", format!("the reader consumed {} bytes; the file ends at {}", rd.handed, rg.consumed)));
+		// (how far the implementation reads ahead in the underlying stream is not judged: an internal
+		// buffer may fetch bytes after the closing brace, what counts is that they are not hashed)
+		if rd.handed < rg.consumed {
+			return Err(e("consumed", format!("the reader consumed only {} bytes; the file ends at {}", rd.handed, rg.consumed)));
 		}
 		if p.n[0] == 1 {
 			let arch = write_slpp(g, p.comp).map_err(|f| e(&format!("slpp-write-failed:{}", f.key()), f.describe()))?;
